@@ -125,78 +125,197 @@ def safe_sqrt(ctx):
                bad_detail=f"the primal output of the derivative rule is {[repr(res[t][0]) for t in res]}, not safe_sqrt(x) = {root!r}")
 
 
+def _argnum(call):
+    """differentiated position of a jax derivative operator call: second positional argument or `argnums=`, default 0"""
+    if len(call.args) > 1:
+        return const_value(call.args[1])
+    for k in call.keywords:
+        if k.arg == "argnums":
+            return const_value(k.value)
+    return 0
+
+
+def _calls_named(scope_node, names):
+    return [c for c in ast.walk(scope_node) if isinstance(c, ast.Call) and (dotted(c.func) or "").split(".")[-1] in names]
+
+
 def slots(ctx):
+    """Slot agreement of every derivative operator, decided on *values*: the adapters and factories are interpreted
+    (optilint.tensoreval) with recording stand-ins, so closures, lambdas, functools.partial of module-level functions, keyword
+    arguments and renamed locals are all the same to the rule."""
     rule = "W3/T5-derivative-slots"
-    # stress output: value_and_grad(L, k), k = index of gradU
-    adapter = ctx.need(f"{M}:strain_energy_density_to_lagrangian_density")
-    L = [c for c in adapter.children if c.kind == "function"]
-    if not L:
-        raise Incomplete("Lagrangian adapter not found")
-    lp = L[0].params()
-    # gradU is the parameter forwarded as first argument of the density
-    r = L[0].returns()
-    gpos = None
-    if r and isinstance(r[0], ast.Call) and r[0].args and isinstance(r[0].args[0], ast.Name):
-        gpos = lp.index(r[0].args[0].id)
-    n = 0
-    for fac in ("create_mechanics_functions", "create_multi_block_mechanics_functions", "create_dynamics_functions"):
-        fs = ctx.need(f"{M}:{fac}")
-        for c in ast.walk(fs.node):
-            if isinstance(c, ast.Call) and (dotted(c.func) or "") == "value_and_grad":
-                n += 1
-                k = const_value(c.args[1]) if len(c.args) > 1 else 0
-                ctx.decide(rule, gpos is not None and k == gpos, fs, c, construct=f"{fac}:stress=d(L)/d(gradU)",
-                           detail=f"value_and_grad(L, {k}); gradU is parameter {gpos} of L{tuple(lp)}",
-                           bad_detail=f"{fac}: stress output differentiates L w.r.t. argument {k}, but the displacement gradient is argument {gpos} of L{tuple(lp)}")
-    if n < 3:
-        raise Incomplete(f"{n} value_and_grad sites found in the mechanics factories (3 expected)")
-    # element hessian w.r.t. argument 0 (checked in C02 too)
+    from optilint.tensoreval import Interp, Dual, PyFunc, EvalError, Raised, _A
+    ERR = (EvalError, Raised, KeyError, IndexError, TypeError, AttributeError, ValueError, ZeroDivisionError, RecursionError)
     mod = ctx.need_module(M)
-    bs = mod.scope.bindings.get("element_hess_func")
-    ok = False
-    if bs and isinstance(bs[-1].value, ast.Call) and (dotted(bs[-1].value.func) or "") == "hessian":
-        a = bs[-1].value.args
-        ok = len(a) == 1 or const_value(a[1]) == 0
-    ctx.decide(rule, ok, mod.scope, bs[-1].node if bs else None, construct="element_hess_func:w.r.t.-nodal-field", detail="hessian(..., argnums=0)",
-               bad_detail="the element stiffness is not the Hessian w.r.t. argument 0 (the element nodal field)")
-    # hardening: flow stress = d(hardening)/d(eqps)
-    hm = ctx.need("optimism.material.Hardening:create_hardening_model")
-    rets = hm.returns()
-    ok = False
-    shown = src(rets[0]) if rets else "?"
-    if rets and isinstance(rets[0], ast.Call) and len(rets[0].args) == 2:
-        f0, f1 = rets[0].args
-        if isinstance(f1, ast.Call) and (dotted(f1.func) or "").endswith("grad") and same(f1.args[0], f0):
-            k = const_value(f1.args[1]) if len(f1.args) > 1 else 0
-            inner = [c for c in hm.children if c.kind == "function" and c.name == src(f0)]
-            ok = k == 0 and bool(inner) and inner[0].params()[0].lower().startswith("eqps")
-    ctx.decide(rule, ok, hm, rets[0] if rets else None, construct="flow-stress=d(hardening)/d(eqps)", detail=shown,
-               bad_detail=f"hardening model is `{shown}`; the flow stress must be jax.grad of the hardening energy w.r.t. its first argument (the plastic strain)")
-    # J2 residual
-    j2 = ctx.need_module("optimism.material.J2Plastic")
-    ip = ctx.need("optimism.material.J2Plastic:incremental_potential")
-    bs = j2.scope.bindings.get("r")
-    ok = False
-    shown = "?"
-    if bs and isinstance(bs[-1].value, ast.Call):
-        v = bs[-1].value
-        shown = src(v)
-        k = const_value(v.args[1]) if len(v.args) > 1 else 0
-        ok = (dotted(v.func) or "").split(".")[-1] in ("jacfwd", "grad", "jacrev") and same(v.args[0], "incremental_potential") and \
-            "eqps" in ip.params() and k == ip.params().index("eqps")
-    ctx.decide(rule, ok, j2.scope, bs[-1].node if bs else None, construct="plastic-residual=d(potential)/d(eqps)", detail=shown,
-               bad_detail=f"`r = {shown}` is not the derivative of incremental_potential w.r.t. its eqps argument")
-    # hardening tuple slots used consistently in J2: [ENERGY_DENSITY]=0 is the energy, [FLOW_STRESS]=1 the derivative
-    from optilint.tensoreval import Interp
-    I = Interp(ctx.repo)
+    # --- stress output: value_and_grad(L, k), k = the position at which the Lagrangian-density adapter receives the displacement gradient.
+    # The adapter is called with a recording strain-energy density; the Lagrangian it returns is called with five marked arguments.
+    adapter = ctx.need(f"{M}:strain_energy_density_to_lagrangian_density")
+    gpos, n_par = None, None
     try:
-        e_i, f_i = I.module_value(j2, "ENERGY_DENSITY"), I.module_value(j2, "FLOW_STRESS")
-        ok = (e_i, f_i) == (0, 1)
-    except Exception:
-        ok = None
-        e_i = f_i = "?"
-    ctx.decide(rule, ok, j2.scope, None, construct="hardening-tuple-slots", detail=f"ENERGY_DENSITY={e_i}, FLOW_STRESS={f_i} match HardeningModel(energy, flow stress)",
-               bad_detail=f"J2Plastic indexes the hardening model with ENERGY_DENSITY={e_i}, FLOW_STRESS={f_i} but it is HardeningModel(energy, flow stress)")
+        I = Interp(ctx.repo)
+        seen = []
+        sed = PyFunc("strain_energy_density", lambda it, a, k: (seen.append(list(a)), Dual(0))[1])
+        L = I.call(I.module_value(mod, adapter.name), [sed], {})
+        marks = [Dual(_A.atom(f"@arg{k}")) for k in range(5)]
+        I.call(L, marks, {})
+        if len(seen) == 1 and seen[0]:
+            hit = [k for k, m_ in enumerate(marks) if seen[0][0] is m_]
+            gpos = hit[0] if len(hit) == 1 else None
+    except ERR as ex:
+        ctx.undecided(rule, adapter, None, construct="lagrangian-adapter", detail=f"cannot interpret the Lagrangian adapter: {ex}")
+    n = 0
+    for fs in [s_ for s_ in ctx.repo.functions() if s_.module is mod and s_.kind == "function" and s_.parent is mod.scope]:
+        for c in _calls_named(fs.node, ("value_and_grad",)):
+            if not c.args:
+                continue
+            # provenance of the differentiated function: a Lagrangian produced by the adapter (directly or through a local name)
+            src_call = c.args[0]
+            if isinstance(src_call, ast.Name):
+                defs = [a.value for a in ast.walk(fs.node) if isinstance(a, ast.Assign) and any(isinstance(t, ast.Name) and t.id == src_call.id for t in a.targets)]
+                src_call = defs[-1] if defs else None
+            from_adapter = isinstance(src_call, ast.Call) and any(isinstance(v, FuncVal) and v.scope is adapter for v in ctx.repo.resolve(src_call.func, fs))
+            k = _argnum(c)
+            if gpos is None or k is None:
+                ctx.undecided(rule, fs, c, construct=f"{fs.name}:stress=d(L)/d(gradU)", detail=f"value_and_grad(L, {k}); position of gradU in L: {gpos}")
+                continue
+            if not from_adapter and k != gpos:
+                ctx.undecided(rule, fs, c, construct=f"{fs.name}:stress=d(L)/d(gradU)", detail=f"value_and_grad of a function that is not visibly a Lagrangian density, w.r.t. argument {k}")
+                continue
+            n += 1
+            ctx.decide(rule, k == gpos, fs, c, construct=f"{fs.name}:stress=d(L)/d(gradU)",
+                       detail=f"value_and_grad(L, {k}); the adapter hands argument {gpos} of L to the strain energy density as displacement gradient",
+                       bad_detail=f"{fs.name}: stress output differentiates L w.r.t. argument {k}, but the displacement gradient is argument {gpos} of the Lagrangian density "
+                                  f"(the adapter passes that argument to the strain energy density)")
+    if n < 1:
+        raise Incomplete(f"{n} value_and_grad sites found in the mechanics factories")
+    # --- element stiffness: Hessian w.r.t. the element nodal field = the argument that the element integrator interpolates (argument 0)
+    hs = [c for c in _calls_named(mod.tree, ("hessian",)) if c.args]
+    if not hs:
+        ctx.undecided(rule, mod.scope, None, construct="element_hess_func:w.r.t.-nodal-field", detail="no jax.hessian call found in Mechanics")
+    for c in hs:
+        k = _argnum(c)
+        tgt = [v for v in ctx.repo.resolve(c.args[0], mod.scope) if isinstance(v, FuncVal)]
+        p0 = tgt[0].scope.params()[0] if tgt and tgt[0].scope.params() else None
+        ctx.decide(rule, (k == 0) if k is not None else None, mod.scope, c, construct="element_hess_func:w.r.t.-nodal-field",
+                   detail=f"hessian(..., argnums={k}) of {src(c.args[0])}; argument 0 is `{p0}`",
+                   bad_detail=f"the element stiffness `{src(c)}` is not the Hessian w.r.t. argument 0 (the element nodal field `{p0}`)")
+    _hardening_and_j2_slots(ctx, rule)
+
+
+def _hardening_and_j2_slots(ctx, rule):
+    """flow stress = d(hardening energy)/d(eqps); plastic residual = d(energy at the updated state)/d(eqps); the J2 model reads the energy
+    and the flow stress from the right members of the hardening model.  All decided on interpreted values (rules/C09_sym.py)."""
+    from optilint.tensoreval import Dual, EvalError, Raised, _A, rat_is_zero, rat_sign, ONE
+    from optilint.expr import simplify
+    from . import C09_sym as sym
+    from . import C09
+    from . import materials as mt
+    ERR = sym.INTERP_ERRORS
+    hm_sc = ctx.need("optimism.material.Hardening:create_hardening_model")
+    hmod = ctx.need_module("optimism.material.Hardening")
+    h = sym.Harness(ctx)
+    e, eo, dt = sym.atom("@e"), sym.atom("@eo"), sym.atom("dt")
+
+    def hardening(rate):
+        I, _, _ = h.interp()
+        I.positive.update({"@e", "@eo"})
+        sc = h.scenario(None, rate=rate)       # the same constants as the J2 scenarios below (linear hardening, optional constants present)
+        hm = I.call(I.module_value(hmod, hm_sc.name), [h.props(I, sc)], {})
+        fields = list(getattr(hm, "fields", []))
+        en = [k for k, f_ in enumerate(fields) if "energy" in f_.lower()]
+        fl = [k for k, f_ in enumerate(fields) if "stress" in f_.lower()]
+        if len(en) != 1 or len(fl) != 1:
+            raise EvalError(f"members of the hardening model not identified: {fields}")
+        return I, hm, en[0], fl[0]
+    # flow stress is the derivative of the hardening energy w.r.t. its first argument; with rate sensitivity the derivative w.r.t. the old
+    # plastic strain differs, without it the two differ as well (the free energy does not depend on the old value)
+    bad, shown = [], ""
+    try:
+        for rate in (False, True):
+            if rate and "rate sensitivity" not in h.presence | h.optional:
+                continue
+            I, hm, k_en, k_fl = hardening(rate)
+            W = I.num(I.call(hm.values[k_en], [Dual(e.a, ONE), eo, dt], {}))
+            Y = I.num(I.call(hm.values[k_fl], [e, eo, dt], {}))
+            shown = f"members {hm.fields}"
+            if not sym.d_equal(Dual(W.b), Y):
+                bad.append(f"{'rate-sensitive' if rate else 'rate-independent'} linear hardening: flow stress member returns {sym.short(Y)}, "
+                           f"d(energy member)/d(eqps) = {sym.short(Dual(W.b))}")
+        ctx.decide(rule, not bad, hm_sc, None, construct="flow-stress=d(hardening)/d(eqps)", detail=f"flow stress(e, e_old, dt) == d/de energy(e, e_old, dt); {shown}",
+                   bad_detail="the flow stress of the hardening model is not the derivative of its energy w.r.t. the plastic strain (first argument): " + "; ".join(bad))
+    except ERR as ex:
+        ctx.undecided(rule, hm_sc, None, construct="flow-stress=d(hardening)/d(eqps)", detail=f"cannot interpret the hardening model: {ex}")
+    # J2 residual: stationarity of the energy the model exposes (shared with C09.D3)
+    j2 = ctx.need_module("optimism.material.J2Plastic")
+    try:
+        kin = C09._poly_additive_option(h)
+        n_y, bad = 0, []
+        for fam in sym.FAMILIES:
+            for rate in (False, True):
+                if rate and "rate sensitivity" not in h.presence | h.optional:
+                    continue
+                ny, b_ = C09.stationarity_case(h, kin, fam, "H>0", rate)
+                n_y += ny
+                bad += b_
+        if not n_y:
+            raise EvalError("no yielding path")
+        ctx.decide(rule, not bad, h.fscope, None, construct="plastic-residual=d(potential)/d(eqps)",
+                   detail=f"the function handed to the root finder is k * d(energy density at the updated state)/d(eqps), k > 0 ({n_y} yielding paths)",
+                   bad_detail="the plastic residual is not the derivative of the incremental potential w.r.t. the new equivalent plastic strain: " + "; ".join(bad[:2]))
+    except (Incomplete,) + ERR as ex:
+        ctx.undecided(rule, h.fscope, None, construct="plastic-residual=d(potential)/d(eqps)", detail=str(ex)[:300])
+    # members of the hardening model as used by J2: at zero strain the energy density is the hardening energy member at the old plastic
+    # strain; the yield test at zero strain amplitude compares with the flow stress member (up to a non-negative tolerance)
+    try:
+        kin = C09._poly_additive_option(h)
+        sc = h.scenario(kin)
+        I, hm, k_en, k_fl = hardening(False)
+        s0 = sym.atom("s0")
+        I.positive.add("s0")
+        W_h = I.num(I.call(hm.values[k_en], [s0, s0, dt], {}))
+        Y_h = I.num(I.call(hm.values[k_fl], [s0, s0, dt], {}))
+        state = h.make_state(kin, s0, sym.zeros3())
+        bad = []
+        rest = [p for p in h.paths(sc, "compute_energy_density", [sym.zeros3(), state, dt]) if p.error is None and not p.value.solves]
+        if not rest:
+            raise EvalError("no elastic path at zero strain")
+        for p in rest:
+            W0 = p.value.interp.num(p.value.value)
+            if not sym.d_equal(W0, W_h):
+                bad.append(f"energy density at zero elastic strain is {sym.short(W0)}, the energy member of the hardening model gives {sym.short(W_h)}")
+                break
+        if bad:
+            # already a derived contradiction; the second half (which needs the residual, i.e. a derivative through the energy member) is not needed
+            ctx.refuted(rule, j2.scope, None, construct="hardening-tuple-slots", detail="J2Plastic uses the members of the hardening model inconsistently: " + "; ".join(bad))
+            return
+        paths = h.paths(sc, "compute_state_new", [sym.family_matrix("axial"), state, dt])
+        reg, _ = C09._direction_split(h, kin, paths, sym.zeros3(), sym.family_matrix("axial"))
+        elastic = [p for p in paths if p.error is None and not C09._yielding(h, kin, p.value, None)]
+        part = C09._parting(reg[0], elastic) if reg and elastic else None
+        if part is None:
+            raise EvalError("yield test not identified")
+        g = _A.norm(part[0] * _A.const(part[1]))          # yielding <=> g > 0
+        pr = reg[0]
+        if len(pr.value.solves) != 1:
+            raise EvalError("scalar solve on the yielding path not identified")
+        fl = h.residual(pr.value, pr.value.solves[0], pr.value.solves[0].lo)
+        cg, cf = _A.diff(g, "t"), _A.diff(_A.norm(-fl.a), "t")
+        if "t" in cg.atoms() or "t" in cf.atoms() or rat_is_zero(cf):
+            raise EvalError("yield test is not affine in the strain amplitude")
+        a = _A.norm(simplify(cg / cf))                      # scale of the yield test relative to the residual, > 0
+        if rat_sign(a, pr.value.interp.positive) != 1:
+            raise EvalError(f"scale of the yield test not positive: {sym.short(a)}")
+        # the yield threshold moves with the old plastic strain exactly like the flow stress member:  d g / d s0 = - a * d(flow stress)/d s0
+        lhs = _A.norm(simplify(_A.diff(g, "s0")))
+        rhs = _A.norm(simplify(-a * _A.diff(Y_h.a, "s0")))
+        if not _A.equal(lhs, rhs):
+            bad.append(f"the yield threshold changes with the old plastic strain at the rate {sym.short(_A.norm(-lhs / a))}, the flow stress member at the rate "
+                       f"{sym.short(_A.diff(Y_h.a, 's0'))}: the yield test does not compare the trial stress with the flow stress member")
+        ctx.decide(rule, not bad, j2.scope, None, construct="hardening-tuple-slots",
+                   detail="J2 reads the energy and the flow stress from the corresponding members of the hardening model (values compared at zero strain)",
+                   bad_detail="J2Plastic uses the members of the hardening model inconsistently: " + "; ".join(bad))
+    except (Incomplete,) + ERR as ex:
+        ctx.undecided(rule, j2.scope, None, construct="hardening-tuple-slots", detail=str(ex)[:300])
 
 
 CUTS = ("stop_gradient",)
